@@ -397,4 +397,65 @@ theorem suffix_of_whole {s t : IS} (hw : t.whole = s.whole) (hl : t.rest.length 
   rw [List.drop_eq_nil_of_le h2] at h1
   simpa using h1
 
+/-! ### where `SkipInstance` ends: right behind a `;` of the input -/
+
+/-- what the rest of a scan that does not put the stop byte back satisfies: success means the byte before the get pointer is
+the stop byte, on a good stream -/
+def EndsBehind (rec : IS → Byte → Nat → Nat → Out LoopRes) (stop : Byte) : Prop :=
+  ∀ (s : IS) (c : Byte) (len steps : Nat) (r : LoopRes), c ≠ stop → rec s c len steps = .ok r → r.sev = sevNull →
+    ∃ ps, r.s.pre = stop :: ps ∧ r.s.good = true
+
+theorem scanAfter_endsBehind (rec : IS → Byte → Nat → Nat → Out LoopRes) (stop : Byte) (cm : Bool) (iters : Nat)
+    (ih : EndsBehind rec stop) (s1 : IS) (c1 : Byte) (len steps : Nat) (r : LoopRes)
+    (hshape : (∃ ps, s1.fail = false ∧ s1.eof = false ∧ s1.pre = c1 :: ps) ∨ c1 ≠ stop)
+    (h : scanAfter rec stop false cm iters s1 c1 len steps = .ok r) (hsev : r.sev = sevNull) :
+    ∃ ps, r.s.pre = stop :: ps ∧ r.s.good = true := by
+  unfold scanAfter at h
+  split at h
+  · rename_i hc
+    rcases hshape with ⟨ps, hf, he, hp⟩ | hne
+    · simp at h
+      subst h
+      subst hc
+      exact ⟨ps, hp, by simp [IS.good, hf, he]⟩
+    · exact absurd hc hne
+  · rename_i hns
+    split at h
+    · generalize s1.peek = pk at h
+      obtain ⟨s2, p⟩ := pk
+      simp only [] at h
+      split at h
+      · generalize readCommentWith (fun s' => rec s' 0 0 0) iters (s2.putback c1) = rc at h
+        cases rc with
+        | ok rr => exact ih _ _ _ _ _ hns h hsev
+        | overflow i k => cases h
+        | outOfFuel => cases h
+      · exact ih _ _ _ _ _ hns h hsev
+    · split at h
+      · generalize sdaiStringRead (s1.putback c1) = sr at h
+        obtain ⟨s2, str⟩ := sr
+        exact ih _ _ _ _ _ hns h hsev
+      · split at h
+        · simp at h; subst h; simp [sevInputError, sevNull] at hsev
+        · exact ih _ _ _ _ _ hns h hsev
+
+theorem scanUntil_endsBehind (stop : Byte) (cm : Bool) (iters : Nat) :
+    ∀ fuel, EndsBehind (scanUntil stop false cm iters fuel) stop := by
+  intro fuel
+  induction fuel with
+  | zero => intro s c len steps r _ h; cases h
+  | succ fuel ih =>
+    intro s c len steps r hc h hsev
+    change scanStep (scanUntil stop false cm iters fuel) stop false cm iters s c len steps = .ok r at h
+    unfold scanStep at h
+    split at h
+    · simp at h; subst h; simp [sevInputError, sevNull] at hsev
+    · generalize hex : s.extract = ex at h
+      obtain ⟨s', o⟩ := ex
+      cases o with
+      | none => exact scanAfter_endsBehind _ stop cm iters ih s' c len steps r (Or.inr hc) h hsev
+      | some c' =>
+        obtain ⟨hf1, he1, ⟨ps, hpre⟩, _⟩ := extract_some hex
+        exact scanAfter_endsBehind _ stop cm iters ih s' c' len steps r (Or.inl ⟨ps, hf1, he1, hpre⟩) h hsev
+
 end StepModel.P21Safe
